@@ -41,8 +41,11 @@ def soup_fragment(rng):
         return lex.comment(rng)
     if r < 0.66:
         return lex.doctype(rng)
-    if r < 0.84:
+    if r < 0.81:
         return lex.text_elem(rng)
+    if r < 0.84:
+        # select / template-in-select / frameset contexts of the ambiguity guard
+        return lex.select_frag(rng)
     if r < 0.87:
         # a text-mode start tag with odd endings (F1 family: `=>`, `= >`, `/>`, `a=/>`)
         name = rng.choice(lex.TEXT_TAGS)
